@@ -243,13 +243,13 @@ ORACLE_PROPS = {
     "D-dead": ["C03"], "D-freed": ["C03"], "deref-dead": ["C01", "C08"], "reach-dead": ["C01", "C08"], "cap-dead": ["C01", "C10"],
     "F-reach-dead": ["C05"], "up-dead": ["C08", "C01"], "unwrap-dead": ["C13"], "dfree": ["C03"], "layout": ["C03"],
     "bytes": ["C11", "C02"], "bufsize": ["C11"], "buflinks": ["C11"], "bufmark": ["C11"], "buffreed": ["C11", "C01"],
-    "bufdup": ["C11"], "bufcount": ["C11"], "rc": ["C04", "C16"], "leak": ["C02"], "newcyc-id": ["C14"], "newcyc-addr": ["C14"],
+    "bufdup": ["C11"], "bufcount": ["C11"], "rc": ["C04", "C16"], "leak": ["C02", "C06"], "newcyc-id": ["C14"], "newcyc-addr": ["C14"],
     "crash": ["C%02d" % i for i in range(1, 17)], "harness-thread-panicked": ["C07"],
     "T-flag": ["C12"], "cb-flag": ["C12"],
     "fin-twice": ["C05", "C06"], "fin-without-feature": ["C05"], "finagain-in-callback": ["C12"], "unwrap-wrong": ["C13", "C12"], "unwrap-err-changed": ["C13", "C11"],
     "action-twice": ["C10"], "action-early": ["C10"], "transient-map-leaked": ["C03", "C10"], "up-none-live": ["C08"], "cyclic-alive-inside": ["C14"], "cyclic-count": ["C14"],
     "born-unfinalized": ["C05"], "born-finalized-outside": ["C05"],
-    "execs": ["C11", "C12", "C15"], "drop-unfinalized": ["C04", "C05"], "fin-reachable": ["C05", "C01", "C07"], "meta-leak": ["C09", "C03"], "not-idle-after-op": ["C07", "C12"],
+    "execs": ["C11", "C12", "C15"], "drop-unfinalized": ["C04", "C05"], "fin-reachable": ["C05", "C01", "C07"], "meta-leak": ["C09", "C03"], "not-idle-after-op": ["C07", "C12"], "last-drop-kept": ["C04", "C07"],
 }
 
 
